@@ -73,7 +73,7 @@ func vfCls(d vfDesc) string {
 	return vfEsc(strings.ToLower(vfReal(d.Mime))) + "|" + strconv.Itoa(int(d.Clock)) + "|" + strconv.Itoa(int(d.Ch))
 }
 
-func vfMatch(a, b vfDesc, swapA, swapB bool) int {
+func vfMatch(a, b vfDesc, swapA, swapB bool) bool {
 	ma, mb := vfReal(a.Mime), vfReal(b.Mime)
 	if swapA {
 		ma = vfSwap(ma)
@@ -83,18 +83,31 @@ func vfMatch(a, b vfDesc, swapA, swapB bool) int {
 	}
 	// every evaluation parses both descriptions afresh: the observation point is
 	// fmtp.Parse(mime, clock, channels, line).Match(fmtp.Parse(...))
-	if Parse(ma, a.Clock, a.Ch, a.Line).Match(Parse(mb, b.Clock, b.Ch, b.Line)) {
-		return 1
-	}
-
-	return 0
+	return Parse(ma, a.Clock, a.Ch, a.Line).Match(Parse(mb, b.Clock, b.Ch, b.Line))
 }
 
-func vfCode(a, b vfDesc) int {
-	return vfMatch(a, b, false, false) | vfMatch(b, a, false, false)<<1 |
-		vfMatch(a, b, true, false)<<2 | vfMatch(b, a, false, true)<<3 |
-		vfMatch(a, b, false, true)<<4 | vfMatch(b, a, true, false)<<5 |
-		vfMatch(a, b, true, true)<<6 | vfMatch(b, a, true, true)<<7
+// vfResults keeps the eight values pion returned for one pair, in the order of the bits of the
+// recorded code (CodecOps.tla): a.Match(b), b.Match(a), a^.Match(b), b.Match(a^), a.Match(b^),
+// b^.Match(a), a^.Match(b^), b^.Match(a^), x^ = x with the case of its mime type changed.
+func vfResults(a, b vfDesc) [8]bool {
+	return [8]bool{
+		vfMatch(a, b, false, false), vfMatch(b, a, false, false),
+		vfMatch(a, b, true, false), vfMatch(b, a, false, true),
+		vfMatch(a, b, false, true), vfMatch(b, a, true, false),
+		vfMatch(a, b, true, true), vfMatch(b, a, true, true),
+	}
+}
+
+// vfCode packs the eight retained results into one integer (lossless; nothing is compared here).
+func vfCode(r [8]bool) int {
+	code := 0
+	for i, v := range r {
+		if v {
+			code |= 1 << i
+		}
+	}
+
+	return code
 }
 
 func TestVerifFmtp(t *testing.T) {
@@ -116,12 +129,16 @@ func TestVerifFmtp(t *testing.T) {
 			t.Fatalf("row index %d out of range", r.A)
 		}
 		a := in.Domain[r.A-1]
-		codes := make([]int, len(r.Bs))
+		results := make([][8]bool, len(r.Bs)) // what pion returned, kept until the row is complete
 		for k, j := range r.Bs {
 			if j < 1 || j > len(in.Domain) {
 				t.Fatalf("partner index %d out of range", j)
 			}
-			codes[k] = vfCode(a, in.Domain[j-1])
+			results[k] = vfResults(a, in.Domain[j-1])
+		}
+		codes := make([]int, len(results))
+		for k := range results {
+			codes[k] = vfCode(results[k])
 		}
 		bs := r.Bs
 		if bs == nil {
@@ -131,7 +148,7 @@ func TestVerifFmtp(t *testing.T) {
 	}
 
 	for k, d := range in.Defaults {
-		self := vfMatch(d, d, false, false) == 1
+		self := vfMatch(d, d, false, false)
 		tr.Emit(vkM{"ev": "default", "t": k, "sig": "default:" + vfSig(d), "self": self})
 	}
 }
